@@ -202,7 +202,11 @@ fn check_pair(rep: &mut Report, rf: &Ref, qa: &RuleAst, ea: Option<&RuleAst>, do
     }
     // oracle 2: member counting over the AST
     let exp = rf.eval_rule(qa, doc);
-    if let Some(w) = refi::verdict(exp) {
+    // (nested-mapping members over an array: the reference leaves quantifiers on array fields
+    // open, but each member's meaning - some element satisfies it - is fixed, so the written-out
+    // rule is the oracle for the optimised forms too)
+    let decided = refi::verdict(exp).or(if label.contains("nested-over") { expanded } else { None });
+    if let Some(w) = decided {
         if w != got {
             rep.violation("reference", &format!("c08-reference:{}", label), &format!("{}: engine {} , member counting gives {} on {}", label, got, refi::ts_name(exp), doc.to_json_text()), mon::case(&qt, doc, None, json!(w), json!(got), json!({})));
             return;
